@@ -128,6 +128,27 @@ def run(ctx):
                         break
         for f in fb.fn.values():
             if f.qn == 'yaclib::WaitGroup::InsertRange' and f.cfg is not None:
+                need_add = len(f.fta) > 1 and f.fta[1] in ('true', '1')
+                if need_add:
+                    # every unit of this call is counted BEFORE the first future can call back: Add(count) dominates
+                    # the registration pass, and the pass itself adds nothing
+                    key = 'R-ADDFIRST WaitGroup::InsertRange<NeedAdd>'
+                    ctx.instance(ri, key + ' :: ' + f.full[:100], None)
+                    cfgf = f.cfg
+                    adds = [c for c in f.own_nodes() if c.get('cn') == 'yaclib::WaitGroup::Add' and cfgf.pos_of(c['i'])]
+                    passes = [c for c in f.own_nodes() if c['k'] == 'CXXOperatorCallExpr' and c.get('op') == '()' and
+                              cfgf.pos_of(c['i']) and any(f.nodes[d]['k'] == 'LambdaExpr'
+                                                          for d in f.descendants(c['i']))]
+                    whole = [a for a in adds if a.get('args') and (f.sn(a['args'][0]) or {}).get('k') == 'DeclRefExpr' and
+                             f.locals[f.sn(a['args'][0])['id']]['p']]
+                    if not passes:
+                        ctx.broken('InsertRange: registration pass not recognised')
+                    if not whole or not all(cfgf.dominates(cfgf.pos_of(whole[0]['i']), cfgf.pos_of(p['i']))
+                                            for p in passes):
+                        ctx.report(ri, key, f.where, 'the futures of one Attach/Consume call are not all counted before '
+                                   'the first of them is registered: an early completion can take the count to zero '
+                                   '(waiters released) while later futures of the same call are still pending',
+                                   'instantiation: ' + f.full[:300])
                 key = 'R-SIBLING WaitGroup::InsertRange'
                 res = EvWalker(fb).run(f)
                 ctx.instance(ri, key + ' :: ' + f.full[:100], None)
